@@ -153,3 +153,91 @@ package valid
 //@   requires t != nil
 //@   modifies nothing
 //@   ensures result != nil && rt.kind(result) != 22
+
+// ---------------------------------------------------------------------------
+// LRU cache (C09 sequential behaviour, C10 lock discipline, C08 weak cache contract)
+//
+// Abstract view: key k is live iff has(l.nodeMap, k); its value is eval(l.nodeMap[k]); its recency is
+// lst.stamp(l.list, l.nodeMap[k]) (larger = more recent). cb.* is the log of removal callbacks.
+
+//@ ghost cb.count() Int
+//@ ghost cb.key() Iface
+//@ ghost cb.val() Iface
+
+//@ functype lruCallback(key, value)
+//@   signature func(key interface{}, value interface{})
+//@   modifies cb.count, cb.key, cb.val
+//@   ensures cb.count == old(cb.count) + 1 && cb.key == key && cb.val == value
+
+//@ pred lru.rep(l *valid.LRUCache) = l != nil && l.list != nil && l.nodeMap != nil && lst.wf(l.list)
+//@     && forall(k Iface :: has(l.nodeMap, k) ==> l.nodeMap[k] != nil && lst.mem(l.list, l.nodeMap[k]))
+//@     && forall(k1 Iface, k2 Iface :: has(l.nodeMap, k1) && has(l.nodeMap, k2) && l.nodeMap[k1] == l.nodeMap[k2] ==> k1 == k2)
+//@     && forall(x Int :: lst.mem(l.list, x) ==> exists(k Iface :: has(l.nodeMap, k) && l.nodeMap[k] == x))
+//@ pred lru.wf(l *valid.LRUCache) = lru.rep(l) && lst.size(l.list) == len(l.nodeMap) && l.maxSize >= 0 && lst.size(l.list) <= l.maxSize
+
+//@ func NewLRU
+//@   ensures [C09 new.wf] lru.wf(result) || (len(max) > 0 && max[0] < 0)
+//@   ensures [C09 new.empty] result != nil && len(result.nodeMap) == 0 && result.maxSize == ite(len(max) > 0, max[0], 512)
+
+//@ func (*LRUCache).Len
+//@   requires lru.wf(l) && mu.held(addr.rwMu(l)) == 0
+//@   modifies mu.held(addr.rwMu(l)), mu.acq(addr.rwMu(l))
+//@   ensures [C09 len.count] result == len(l.nodeMap) && result >= 0
+//@   ensures [C10 len.unlocked] mu.held(addr.rwMu(l)) == 0 && mu.acq(addr.rwMu(l)) == old(mu.acq(addr.rwMu(l))) + 1
+
+//@ func (*LRUCache).Load
+//@   requires lru.wf(l) && mu.held(addr.rwMu(l)) == 0
+//@   modifies lst.stamp(l.list), mu.held(addr.rwMu(l)), mu.acq(addr.rwMu(l))
+//@   ensures lru.wf(l)
+//@   ensures [C09 load.hit]    ok == old(has(l.nodeMap, key)) && (ok ==> data == old(eval(l.nodeMap[key])))
+//@   ensures [C09 load.miss]   !ok ==> data == nil
+//@   ensures [C09 load.touch]  ok ==> forall(k Iface :: has(l.nodeMap, k) && k != key ==> lst.stamp(l.list, l.nodeMap[k]) < lst.stamp(l.list, l.nodeMap[key]))
+//@   ensures [C09 load.others] forall(k Iface :: has(l.nodeMap, k) && k != key ==> lst.stamp(l.list, l.nodeMap[k]) == old(lst.stamp(l.list, l.nodeMap[k])))
+//@   ensures [C09 load.nomiss-effect] !ok ==> forall(x Int :: lst.stamp(l.list, x) == old(lst.stamp(l.list, x)))
+//@   ensures [C10 load.unlocked] mu.held(addr.rwMu(l)) == 0 && mu.acq(addr.rwMu(l)) == old(mu.acq(addr.rwMu(l))) + 1
+
+//@ func (*LRUCache).delete
+//@   requires lru.rep(l) && lst.size(l.list) == len(l.nodeMap) && node != nil && lst.mem(l.list, node)
+//@   requires mu.held(addr.rwMu(l)) == 2
+//@   modifies lst.mem(l.list), lst.size(l.list), l.nodeMap, mapof(l.nodeMap), l.delMapCount, cb.count, cb.key, cb.val
+//@   ensures lru.rep(l) && lst.size(l.list) == len(l.nodeMap) && lst.size(l.list) == old(lst.size(l.list)) - 1
+//@   ensures l.list == old(l.list) && l.maxSize == old(l.maxSize) && mu.held(addr.rwMu(l)) == 2
+//@   ensures [C09 delete.entry]  forall(k Iface :: old(has(l.nodeMap, k) && l.nodeMap[k] == node) ==> !has(l.nodeMap, k))
+//@   ensures [C09 delete.others] forall(k Iface :: old(has(l.nodeMap, k) && l.nodeMap[k] != node) ==> has(l.nodeMap, k) && l.nodeMap[k] == old(l.nodeMap[k]))
+//@   ensures [C09 delete.nonew]  forall(k Iface :: has(l.nodeMap, k) ==> old(has(l.nodeMap, k)))
+//@   ensures [C09 delete.callback.once] l.deleteCallBackFn != nil ==> cb.count == old(cb.count) + 1 && cb.val == old(eval(node))
+//@   ensures [C09 delete.callback.key]  l.deleteCallBackFn != nil ==> forall(k Iface :: k == cb.key ==> old(has(l.nodeMap, k) && l.nodeMap[k] == node))
+//@   ensures [C09 delete.nocallback] l.deleteCallBackFn == nil ==> cb.count == old(cb.count)
+//@   at call Remove#0 assert [C09 delete.found] old(has(l.nodeMap, key) && l.nodeMap[key] == node)
+//@   loop#0 invariant rng.pos(0) >= 0 && rng.pos(0) <= rng.len(0)
+//@   loop#0 invariant forall(j Int :: 0 <= j && j < rng.pos(0) ==> l.nodeMap[rng.key(0, j)] != node)
+//@   loop#1 invariant rng.pos(1) >= 0 && rng.pos(1) <= rng.len(1) && l.nodeMap != tmp && l.nodeMap != nil && fresh(l.nodeMap)
+//@   loop#1 invariant len(l.nodeMap) == rng.pos(1)
+//@   loop#1 invariant forall(j Int :: 0 <= j && j < rng.pos(1) ==> has(l.nodeMap, rng.key(1, j)) && l.nodeMap[rng.key(1, j)] == tmp[rng.key(1, j)])
+//@   loop#1 invariant forall(k Iface :: has(l.nodeMap, k) ==> has(tmp, k) && rng.idx(1, k) < rng.pos(1))
+
+//@ func (*LRUCache).Store
+//@   requires lru.wf(l) && mu.held(addr.rwMu(l)) == 0
+//@   modifies lst.mem(l.list), lst.stamp(l.list), lst.size(l.list), l.nodeMap, mapof(l.nodeMap), l.delMapCount, "H.container/list.Element.Value", cb.count, cb.key, cb.val, mu.held(addr.rwMu(l)), mu.acq(addr.rwMu(l))
+//@   ensures lru.wf(l) && l.list == old(l.list) && l.maxSize == old(l.maxSize)
+//@   ensures [C09 store.value]  l.maxSize >= 1 ==> has(l.nodeMap, key) && eval(l.nodeMap[key]) == value
+//@   ensures [C09 store.front]  forall(k Iface :: has(l.nodeMap, k) && k != key && has(l.nodeMap, key) ==> lst.stamp(l.list, l.nodeMap[k]) < lst.stamp(l.list, l.nodeMap[key]))
+//@   ensures [C09 store.keep]   old(has(l.nodeMap, key)) || old(len(l.nodeMap)) < l.maxSize ==> cb.count == old(cb.count) && forall(k Iface :: k != key ==> has(l.nodeMap, k) == old(has(l.nodeMap, k)))
+//@   ensures [C09 store.evict]  !old(has(l.nodeMap, key)) && old(len(l.nodeMap)) == l.maxSize && l.maxSize >= 1 && l.deleteCallBackFn != nil ==>
+//@         cb.count == old(cb.count) + 1 && !has(l.nodeMap, cb.key)
+//@         && forall(m Iface :: m == cb.key ==> old(has(l.nodeMap, m)) && cb.val == old(eval(l.nodeMap[m]))
+//@                && forall(k Iface :: old(has(l.nodeMap, k)) ==> old(lst.stamp(l.list, l.nodeMap[m])) <= old(lst.stamp(l.list, l.nodeMap[k]))))
+//@         && forall(k Iface :: k != cb.key && k != key ==> has(l.nodeMap, k) == old(has(l.nodeMap, k)))
+//@   ensures [C09 store.others] forall(k Iface :: k != key && has(l.nodeMap, k) ==> old(has(l.nodeMap, k)) && eval(l.nodeMap[k]) == old(eval(l.nodeMap[k])) && lst.stamp(l.list, l.nodeMap[k]) == old(lst.stamp(l.list, l.nodeMap[k])))
+//@   ensures [C09 store.cap0]   l.maxSize == 0 ==> len(l.nodeMap) == 0 && (l.deleteCallBackFn != nil ==> cb.count == old(cb.count) + 1 && cb.key == key && cb.val == value)
+//@   ensures [C10 store.unlocked] mu.held(addr.rwMu(l)) == 0 && mu.acq(addr.rwMu(l)) == old(mu.acq(addr.rwMu(l))) + 1
+
+//@ func (*LRUCache).Delete
+//@   requires lru.wf(l) && mu.held(addr.rwMu(l)) == 0
+//@   modifies lst.mem(l.list), lst.size(l.list), l.nodeMap, mapof(l.nodeMap), l.delMapCount, cb.count, cb.key, cb.val, mu.held(addr.rwMu(l)), mu.acq(addr.rwMu(l))
+//@   ensures lru.wf(l)
+//@   ensures [C09 del.gone]   !has(l.nodeMap, key)
+//@   ensures [C09 del.others] forall(k Iface :: k != key ==> has(l.nodeMap, k) == old(has(l.nodeMap, k)) && (has(l.nodeMap, k) ==> l.nodeMap[k] == old(l.nodeMap[k])))
+//@   ensures [C09 del.callback] old(has(l.nodeMap, key)) && l.deleteCallBackFn != nil ==> cb.count == old(cb.count) + 1 && cb.key == key && cb.val == old(eval(l.nodeMap[key]))
+//@   ensures [C09 del.nocallback] !old(has(l.nodeMap, key)) || l.deleteCallBackFn == nil ==> cb.count == old(cb.count)
+//@   ensures [C10 delete.unlocked] mu.held(addr.rwMu(l)) == 0 && mu.acq(addr.rwMu(l)) == old(mu.acq(addr.rwMu(l))) + 1
